@@ -459,6 +459,13 @@ def run_assemble(col, n, metric_name, pattern_name, groups, n_chunks, repeats, f
                 col.states += 1
                 col.count("proper_subsets")
                 asm.run_sequence(list(sub))
+                # ... and the same incomplete set with one file listed twice (the counts may
+                # then add up to the full number of pairs although pairs are missing)
+                for x in sub:
+                    for seq in (list(sub) + [x], [x] + list(sub)):
+                        col.states += 1
+                        col.count("proper_subsets_with_a_repeat")
+                        asm.run_sequence(seq)
         if n >= 3 and n_chunks == 3 and pattern_name == "first-two-identical":
             col.sample({"assemble": {"groups": groups, "metric": metric_name, "n_chunks": n_chunks, "sequences": n_seq,
                                       "chunk_index_lists": asm.index_lists}})
